@@ -241,6 +241,57 @@ def sub_opts(pi, src, acc):
     return None
 
 
+# ---- options changed in place on an instance that has already rendered ----------------------------------------
+LIVE_ROUTES = ["setitem", "setattr", "update"]
+
+
+def _opts_of(ci):
+    xh, br, lp, hi = COMBOS[ci]
+    return {"xhtmlOut": xh, "breaks": br, "langPrefix": LANGP[lp], "highlight": HLS[hi]}
+
+
+def live_case(pi, ca, cb, route, src, acc):
+    """an instance configured like combination ca renders src, is switched in place to cb, renders again"""
+    from markdown_it import MarkdownIt
+
+    base = OPT_PRESETS[pi]
+    md = MarkdownIt(base["preset"], {**(base.get("opts") or {}), **_opts_of(ca)})
+    if base.get("enable"):
+        md.enable(base["enable"])
+    if base.get("disable"):
+        md.disable(base["disable"])
+    if acc.call(md.render, src) is CRASH:
+        return None
+    o = _opts_of(cb)
+    if route == "update":
+        md.options.update(o)
+    else:
+        for k, v in o.items():
+            if route == "setitem":
+                md.options[k] = v
+            else:
+                setattr(md.options, k, v)
+    toks = acc.call(md.parse, src)
+    if toks is CRASH:
+        return None
+    got = acc.call(md.renderer.render, toks, md.options, {})
+    if got is CRASH:
+        return None
+    if got != ref_render(toks, o):
+        return f"HTML differs from the reference renderer after options were changed in place ({route}) from {COMBOS[ca]} to {COMBOS[cb]}"
+    return None
+
+
+def live_pairs():
+    """ordered pairs of option combinations that differ in exactly one option"""
+    out = []
+    for a in range(len(COMBOS)):
+        for b in range(len(COMBOS)):
+            if sum(1 for x, y in zip(COMBOS[a], COMBOS[b]) if x != y) == 1:
+                out.append((a, b))
+    return out
+
+
 # ---- driver --------------------------------------------------------------------------------------------------
 def opt_docs():
     out = list(S.docs(S.FREE_LINES, 2, both_endings=False)) + list(S.strings(S.ATOMS, 2)) + I.core_docs() + FENCE_DOCS
@@ -256,7 +307,8 @@ def opt_docs():
 def bounds(tier):
     th = tier == "thorough"
     return {"atoms": ATOMS, "L": 5 if th else 4, "atoms_with_breaks": ATOMS_NL if th else None, "ctx_configs": CTX_CFGS,
-            "option_combinations": len(COMBOS), "option_presets": OPT_PRESETS, "option_docs": len(opt_docs()), "line_end_atoms": NL_ATOMS, "L_line_end": 3}
+            "option_combinations": len(COMBOS), "option_presets": OPT_PRESETS, "option_docs": len(opt_docs()), "line_end_atoms": NL_ATOMS, "L_line_end": 3,
+            "live_option_changes": {"docs": FENCE_DOCS, "pairs": "every ordered pair of option combinations that differ in one option", "routes": LIVE_ROUTES}}
 
 
 def shards(tier):
@@ -277,10 +329,23 @@ def shards(tier):
     for pi in range(len(OPT_PRESETS)):
         for i in range(0, len(docs), 200):
             sh.append(("opts", pi, i, min(len(docs), i + 200)))
+        for di in range(len(FENCE_DOCS)):
+            sh.append(("live", pi, di))
     return sh
 
 
 def run_shard(sh, acc):
+    if sh[0] == "live":
+        _, pi, di = sh
+        src = FENCE_DOCS[di]
+        for n, (a, b) in enumerate(live_pairs()):
+            route = LIVE_ROUTES[n % 3]
+            acc.case()
+            r = live_case(pi, a, b, route, src, acc)
+            if r:
+                acc.violation("live", r.split(" (")[0], {"preset": pi, "src": src, "ca": a, "cb": b, "route": route}, r)
+        acc.sample("live", {"preset": pi, "src": src, "ca": 0, "cb": 12, "route": "setitem"}, 1)
+        return
     if sh[0] == "ctx":
         _, ci, f, L, which = sh
         c = CTX_CFGS[ci]
@@ -313,6 +378,10 @@ def check_case(case, acc):
         if r:
             acc.violation("ctx", r.split(" in context")[0] if "context" not in r else "children differ in context " + r.split("context ")[1].split(" ")[0],
                           {"cfg": case["cfg"], "t": case["t"]}, r)
+    elif case["sub"] == "live":
+        r = live_case(case["preset"], case["ca"], case["cb"], case["route"], case["src"], acc)
+        if r:
+            acc.violation("live", r.split(" (")[0], {k: case[k] for k in ("preset", "src", "ca", "cb", "route")}, r)
     else:
         r = sub_opts(case["preset"], case["src"], acc)
         if r:
